@@ -656,6 +656,17 @@ func attribute(ctx *Ctx, c *c01Case, diag string, seq *int) (string, string) {
 	return strings.Join(hit, "+"), ""
 }
 
+// genFindingFor names the listed generator finding whose trigger is present in the schema / options and whose
+// diagnostic pattern matches (the light form of attribute, without the neutralised rerun: C01 does that one).
+func genFindingFor(ctx *Ctx, root *sg.Schema, args []string, diag string) string {
+	for _, f := range genFindings {
+		if ctx.Known.Has(f.sig) && f.trigger(root, args) && f.diag.MatchString(diag) {
+			return f.sig
+		}
+	}
+	return ""
+}
+
 func firstFailed(p *batch.Program) string {
 	for _, l := range strings.Split(string(p.Proc.Stderr), "\n") {
 		if strings.Contains(l, "Failed:") {
